@@ -337,7 +337,10 @@ class ExprMixin:
                         if isinstance(x, Val) and x.sort == STR:
                             nxt.append((s2, acc + [x]))
                         else:
-                            nxt.append((s2, acc + [fresh(STR, "fmt")]))
+                            fv = fresh(STR, "fmt")
+                            if isinstance(x, Val) and any(x.z.eq(u) for u in getattr(self, "uuid_terms", [])):
+                                fv.is_uuid = True
+                            nxt.append((s2, acc + [fv]))
                 else:
                     raise Unsupported(node, "f-string part")
             cur = nxt
@@ -348,7 +351,13 @@ class ExprMixin:
             elif len(acc) == 1:
                 out.append((s, acc[0]))
             else:
-                out.append((s, vstr(z3.Concat(*[a.z for a in acc]))))
+                r = vstr(z3.Concat(*[a.z for a in acc]))
+                if any(getattr(a, "is_uuid", False) for a in acc):
+                    # A-uuid: a string that embeds a fresh uuid4 differs from every string that existed before
+                    for loc, hv in s.heap.items():
+                        if isinstance(hv, Val) and isinstance(hv.sort, DictSort) and hv.sort.key == STR:
+                            s.assume(z3.Not(z3.Select(hv.t[2], r.z)))
+                out.append((s, r))
         return out
 
     def ev_Await(self, node, st):
